@@ -87,6 +87,7 @@ func ruleC15(c *Check) {
 	// C15.2 validators agree
 	c.validatorAgreement("C15.2", "MsgDefineService", "ServiceDefinition")
 	c.validatorAgreement("C15.2", "MsgBindService", "ServiceBinding")
+	c.validatorsOnEveryPath("C15.10")
 	// C15.3 / C15.7 bind
 	if en := ents["MsgBindService"]; en != nil {
 		sum := c.P.SummaryOf(en.Handler)
@@ -966,6 +967,141 @@ func (c *Check) lookupsIndependentOfConfiguration(rule string, entries []*Func) 
 			c.ok(rule, unitConstruct(f, "configuration-free"), f.Body.Pos(), "no branch on a rewritable field of a stored record")
 		}
 	}
+	// list queries return every record they scan: in the query entry functions themselves no branch tests a field of a
+	// record read from the store at all (rewritable or not) — a filter on the record's content makes the answer a subset
+	// ("the responses of a batch" without those that carry no output), and the two query interfaces drift apart
+	recordField := func(t *Term) bool {
+		if !strings.HasPrefix(t.Op, ".") || len(t.A) != 1 {
+			return false
+		}
+		for _, ty := range []string{".Response.", ".Request.", ".CompactRequest.", ".ServiceBinding.", ".ServiceDefinition.", ".RequestContext.", ".Pricing."} {
+			if strings.HasPrefix(t.Op, ty) {
+				return true
+			}
+		}
+		return false
+	}
+	for _, f := range entries {
+		bad := map[string]token.Pos{}
+		for _, pa := range c.P.PathsOf(f) {
+			for _, ev := range pa.Events {
+				if ev.Kind != EvFact {
+					continue
+				}
+				n++
+				ev.Fact.T.Walk(func(t *Term) bool {
+					if recordField(t) {
+						fromStore := false
+						t.Walk(func(u *Term) bool {
+							if u.Op != "" && (strings.Contains(u.Op, "keeper.Keeper.Get") || strings.HasSuffix(u.Op, "KVStore.Get") || strings.Contains(u.Op, "Unmarshal") || strings.HasSuffix(u.Op, "Iterator.Value")) {
+								fromStore = true
+							}
+							return true
+						})
+						if fromStore {
+							if _, dup := bad[t.Op]; !dup {
+								bad[t.Op] = ev.Pos
+							}
+						}
+					}
+					return true
+				})
+			}
+		}
+		var ks []string
+		for k := range bad {
+			ks = append(ks, k)
+		}
+		sort.Strings(ks)
+		for _, k := range ks {
+			c.fail(rule, unitConstruct(f, "answer-filtered-on:"+strings.TrimPrefix(k, ".")), bad[k],
+				"the query branches on "+strings.TrimPrefix(k, ".")+" of a record read from the store: records would be left out of (or added to) the answer depending on their content")
+		}
+	}
 	c.Sites += n
 	c.req(len(fs) >= 10 && n >= 20, rule, "query-path-functions", token.NoPos, fmt.Sprintf("%d read-only functions on the query paths, %d branch facts examined", len(fs), n))
+}
+
+// validatorsOnEveryPath: stateless validation does not depend on which optional fields a message happens to carry. In every
+// ValidateBasic of a message type, a single-field validator types.ValidateX(msg.F) that is applied on some accepting path
+// is applied on every accepting path — except paths that have established that F is empty (an optional field left out).
+// A guard clause that returns early for one empty field and thereby skips the validators of the fields checked after it
+// lets an invalid value of those fields through (an unparseable or out-of-schema pricing text stored by an update
+// that adds no deposit).
+func (c *Check) validatorsOnEveryPath(rule string) {
+	nFn, nPairs := 0, 0
+	for _, f := range c.handFuncs("types") {
+		if f.Obj == nil || f.Obj.Name() != "ValidateBasic" || f.Recv == nil || !strings.HasPrefix(namedStruct(f.Recv.Type()), "Msg") {
+			continue
+		}
+		msg := namedStruct(f.Recv.Type())
+		nFn++
+		type pair struct{ v, fld string }
+		applied := map[pair]bool{}
+		type pinfo struct {
+			pa   *Path
+			have map[pair]bool
+		}
+		var infos []pinfo
+		for _, pa := range c.P.PathsOf(f) {
+			if pa.Exit == ExitRevert || pa.Exit == ExitPanic {
+				continue
+			}
+			have := map[pair]bool{}
+			note := func(t *Term) {
+				t = stripConv(t)
+				if t == nil || !strings.HasPrefix(t.Op, "types.Validate") || len(t.A) != 1 {
+					return
+				}
+				a := stripConv(t.A[0])
+				if strings.HasPrefix(a.Op, "."+msg+".") && len(a.A) == 1 {
+					have[pair{t.Op, strings.TrimPrefix(a.Op, "."+msg+".")}] = true
+				}
+			}
+			for _, ev := range pa.Events {
+				if ev.Kind == EvCall && strings.HasPrefix(ev.CI.name, "types.Validate") && len(ev.CI.args) == 1 {
+					note(mk(ev.CI.name, ev.CI.args[0]))
+				}
+			}
+			for _, r := range pa.Ret {
+				note(r)
+			}
+			for k := range have {
+				applied[k] = true
+			}
+			infos = append(infos, pinfo{pa, have})
+		}
+		var ps []pair
+		for k := range applied {
+			ps = append(ps, k)
+		}
+		sort.Slice(ps, func(i, j int) bool { return ps[i].v+ps[i].fld < ps[j].v+ps[j].fld })
+		for _, k := range ps {
+			nPairs++
+			var badPos token.Pos
+			bad := false
+			for _, in := range infos {
+				if in.have[k] {
+					continue
+				}
+				// the path accepts (or may accept) without applying the validator: it must know the field to be empty,
+				// or it rejects for another reason (a tail call of another validator is a possible rejection, not an acceptance)
+				fldT := field(msg, k.fld, atom("Precv"))
+				af := in.pa.AllFacts()
+				if af.Holds(mk("nonempty", fldT), false) || af.Holds(mk("sdk.Coins.Empty", fldT), true) || af.Holds(mk("==", fldT, atom("#0")), true) {
+					continue
+				}
+				bad, badPos = true, in.pa.RetPos
+				break
+			}
+			pos := f.Body.Pos()
+			if bad {
+				pos = badPos
+			}
+			c.req(!bad, rule, f.Name+"#"+strings.TrimPrefix(k.v, "types.")+"("+k.fld+")", pos,
+				"the field validator is applied on every accepting path that has not established the field to be empty"+condStr(bad, ": the path ending at "+c.pos(badPos)+" accepts without it"))
+		}
+	}
+	c.Sites += nPairs
+	c.req(nFn >= 10 && nPairs >= 30, rule, "message-validators", token.NoPos, fmt.Sprintf("%d ValidateBasic functions, %d (validator, field) pairs", nFn, nPairs))
 }
